@@ -50,6 +50,17 @@ MUTATIONS = {
         ('timeout', 'tonic/src/transport/service/grpc_timeout.rs', r'let shorter_duration = std::cmp::min\(header, server\);', 'let shorter_duration = std::cmp::max(header, server);', 'longest deadline wins'),
         ('timeout', 'tonic/src/transport/service/grpc_timeout.rs', r'if timeout_value\.len\(\) > 8 \{', 'if timeout_value.len() > 9 {', 'nine digits accepted'),
         ('timeout', 'tonic/src/request.rs', r"try_format\(duration, 'm', \|d\| d\.as_millis\(\)\)", "try_format(duration, 'm', |d| d.as_micros())", 'millisecond unit written with microsecond value'),
+        ('serverconfig', 'tonic/src/transport/server/mod.rs', r'timeout: self\.timeout,', 'timeout: self.tcp_keepalive,', 'layer() loses the configured timeout'),
+        ('serverconfig', 'tonic/src/transport/server/mod.rs', r'timeout: Some\(timeout\),', 'timeout: None,', 'timeout() setter stores nothing'),
+    ],
+    'C16': [
+        ('webserver', 'tonic-web/src/call.rs', r"acc\.push\(b':'\);", "acc.push(b'=');", 'trailer row separator'),
+        ('webserver', 'tonic-web/src/call.rs', r'acc\.put_slice\(value\.as_bytes\(\)\);', 'acc.put_slice(key.as_ref());', 'trailer value replaced by its name'),
+        ('webserver', 'tonic-web/src/call.rs', r'frame\.put_u8\(GRPC_WEB_TRAILERS_BIT\);', 'frame.put_u8(0);', 'trailers frame without the 0x80 flag'),
+        ('webserver', 'tonic-web/src/call.rs', r'\(self\.buf\.len\(\) / 4\) \* 4', '(self.buf.len() / 3) * 3', 'base64 carry not a multiple of four'),
+    ],
+    'C17': [
+        ('webclient', 'tonic-web/src/call.rs', r'len \+= msg_len as usize \+ 4 \+ 1;', 'len += msg_len as usize + 4;', 'frame walk skips one byte too few'),
     ],
     'C12': [
         ('reqresp', 'tonic/src/service/interceptor.rs', r'SanitizeHeaders::No\)', 'SanitizeHeaders::Yes)', 'interceptor path sanitises reserved headers'),
@@ -62,7 +73,7 @@ HARMLESS = {'n/a'}
 
 def run(prop, spec, work):
     muts = MUTATIONS.get(prop, [])
-    if not muts:
+    if not muts and not spec.get('kani'):
         return 0
     sys.path.insert(0, os.path.join(os.path.dirname(os.path.abspath(__file__)), '..', 'bin'))
 
@@ -97,6 +108,12 @@ def run(prop, spec, work):
             ok = (verdict == 'green') if harmless else (verdict == 'red')
             print('SELFTEST %s %s: %-40s -> %s %s' % (prop, 'harmless' if harmless else 'break   ', m[4] if not harmless else m[2][:40], verdict, ('(' + ', '.join(r.split('::')[-1] for r in red[:3]) + ')') if red else ''))
             if not ok and not verdict.startswith('anchor-lost'):
+                bad += 1
+    if spec.get('kani'):
+        import kxlib
+        for r in kxlib.selftest(spec['kani'], os.path.join(work, 'kani-selftest')):
+            print('SELFTEST %s break    kani harness %-28s -> %s' % (prop, r['harness'], r['outcome']))
+            if r['outcome'].startswith('NOT CAUGHT'):
                 bad += 1
     if bad:
         print('SELFTEST: %d deliberate break(s) not handled as expected - the machinery is weaker than claimed (exit 2, not a violation)' % bad)
